@@ -161,6 +161,9 @@ structure Script where
   dels : List Nat := []
   /-- the contract's `check_delegation` function refuses (`CheckFeeDelegation` returns an error) -/
   nofd : Bool := false
+  /-- the script stands for the commands of a MULTICALL transaction (the stub runs a MULTICALL payload only
+      if it says so; any other finds no code) -/
+  multi : Bool := false
 deriving Repr, Inhabited
 
 inductive GovOp
@@ -679,6 +682,34 @@ def finishOwn (w : World) (bp : Nat) (tx : Tx) (status : Status) (o : ExecOut) :
   | some .runtime => runtimeBranch w o.w bp tx obj obj o.fee o.leak o.dirty
   | none => successBranch o.w bp tx obj obj o.fee status
 
+/-- the scripted VM on a MULTICALL: the "contract" is the sender's own record `acc` (`receiver = sender`), it
+has no storage of its own (`GetMultiCallState`: storage writes of the script are dropped, nothing is staged),
+transfers go from that record to their targets -/
+def vmMulti (w : World) (tx : Tx) (acc : Copy) (base : Nat) : ExecOut :=
+  match tx.script.err with
+  | .negfee => { snd := acc, rcv := acc, w, fee := base, err := some (.reject .system) }
+  | .system =>
+    match runXfers acc.id acc.id acc.cur acc.cur w false tx.script.xfers with
+    | .fail dirty => { snd := acc, rcv := acc, w, fee := base + tx.script.fee, err := some .runtime, dirty }
+    | .ok _ _ _ _ => { snd := acc, rcv := acc, w, fee := base + tx.script.fee, err := some (.reject .system) }
+  | .vm | .vmlate => { snd := acc, rcv := acc, w, fee := base + tx.script.fee, err := some .runtime }
+  | .ok =>
+    match runXfers acc.id acc.id acc.cur acc.cur w false tx.script.xfers with
+    | .fail dirty => { snd := acc, rcv := acc, w, fee := base + tx.script.fee, err := some .runtime, dirty }
+    | .ok _ ra w' _ =>
+      let fee := base + tx.script.fee
+      if ra.bal < fee then
+        -- vmError(ErrInsufficientBalance) after the VM has committed its calls (the known finding's shape)
+        { snd := acc, rcv := { acc with cur := ra }, w := w', fee, err := some .runtime, leak := decide (w' ≠ w) }
+      else { snd := acc, rcv := { acc with cur := ra }, w := w', fee, err := none }
+
+/-- `contract.Execute` of a MULTICALL whose payload is a multicall script -/
+def executeMulti (c : Ctx) (w : World) (tx : Tx) (acc : Copy) : ExecOut :=
+  let base := txBaseFee c tx.payloadLen
+  match gasLimit c false tx.gasLimit tx.payloadLen base acc.cur.bal acc.cur.bal with
+  | none => { snd := acc, rcv := acc, w, fee := base, err := some .runtime }
+  | some _ => vmMulti w tx acc base
+
 /-- the receiver record of `executeTx`: `GetAccountState(recipient)` (flagged for REDEPLOY) or
 `CreateAccountState(CreateContractID(..))` -/
 def mkReceiver (w : World) (tx : Tx) : Except Rej (Copy × Status) :=
@@ -703,8 +734,10 @@ def executeTx (c : Ctx) (w : World) (bp : Nat) (tx : Tx) : Result :=
   | some r => rej r
   | none =>
   if tx.type = .multicall then
-    -- receiver is the sender object; the stub VM finds no code: vm error, no VM fee
-    runtimeBranch w w bp tx snd snd (txBaseFee c tx.payloadLen) false false
+    -- receiver is the sender object
+    if tx.script.multi then finishOwn w bp tx .success (executeMulti c w tx snd)
+    -- any other payload: the stub VM finds no code: vm error, no VM fee
+    else runtimeBranch w w bp tx snd snd (txBaseFee c tx.payloadLen) false false
   else
   match mkReceiver w tx with
   | .error r => rej r
